@@ -54,6 +54,8 @@ var c10Letters = []encLetter{
 	{name: "CSel", read: 'c'},
 	{name: "NSel", read: 'n'},
 	{name: "LOD", read: 'l'},
+	{name: "HighResolutionCoordinates=true", read: 'H'},
+	{name: "HighResolutionCoordinates=false", read: 'h'},
 	{name: "SetCSel(5)", call: mcall(rec.Call{M: rec.MSetCSel, Adj: 5}), class: kStyling},
 	{name: "SetNSel(7)", call: mcall(rec.Call{M: rec.MSetNSel, Adj: 7}), class: kStyling},
 	{name: "SetCReg(1,false,rgba)", call: mcall(rec.Call{M: rec.MSetCReg, Adj: 1, C: c10Col}), class: kStyling},
@@ -67,9 +69,12 @@ var c10Letters = []encLetter{
 	{name: "SetLOD(1,100)", call: mcall(rec.Call{M: rec.MSetLOD, A: [6]float32{1, 100}}), class: kStyling},
 	{name: "StartPath(2,1,2)", call: mcall(rec.Call{M: rec.MStartPath, Adj: 2, A: [6]float32{1, 2}}), class: kStart},
 	{name: "StartPath(7,1,2)", call: mcall(rec.Call{M: rec.MStartPath, Adj: 7, A: [6]float32{1, 2}}), class: kStartBad},
+	{name: "StartPath(71,1,2)", call: mcall(rec.Call{M: rec.MStartPath, Adj: 71, A: [6]float32{1, 2}}), class: kStartBad},
+	{name: "SetCReg(130,false,rgba)", call: mcall(rec.Call{M: rec.MSetCReg, Adj: 130, C: c10Col}), class: kStylingBadAdj},
+	{name: "SetNReg(64,false,1.25)", call: mcall(rec.Call{M: rec.MSetNReg, Adj: 64, A: [6]float32{1.25}}), class: kStylingBadAdj},
 	{name: "AbsLineTo(3,4.5)", call: mcall(rec.Call{M: rec.MAbsL, A: [6]float32{3, 4.5}}), class: kDraw},
 	{name: "RelArcTo", call: mcall(rec.Call{M: rec.MRelA, LA: true, A: [6]float32{5, 6, 0.25, 7, 8}}), class: kDraw},
-	{name: "AbsHLineTo(-9)", call: mcall(rec.Call{M: rec.MAbsH, A: [6]float32{-9}}), class: kDraw},
+	{name: "AbsHLineTo(-9.003)", call: mcall(rec.Call{M: rec.MAbsH, A: [6]float32{-9.003}}), class: kDraw}, // not a multiple of 1/64
 	{name: "ClosePathAbsMoveTo(10,11)", call: mcall(rec.Call{M: rec.MAbsMove, A: [6]float32{10, 11}}), class: kDraw},
 	{name: "ClosePathEndPath", call: mcall(rec.Call{M: rec.MEndPath}), class: kEnd},
 	{name: "Reset(default)", call: mcall(rec.Call{M: rec.MReset, VB: ivg.DefaultViewBox, Pal: &ivg.DefaultPalette}), class: kReset},
@@ -152,7 +157,7 @@ func init() {
 	mc.Register(&mc.Check{
 		ID:    "C10",
 		Level: "model_checking",
-		Rule: "engine S: all histories of <=5 (thorough <=6, <=7 from the zero value) calls over a 24-letter alphabet of call classes (Bytes, CSel, NSel, LOD, SetCSel, SetNSel, SetCReg/SetNReg {ok, ok-incr, ADJ=7, incr with ADJ=1}, SetLOD, StartPath {ok, ADJ=7}, L, A, H, Y, Z, Reset {default, custom}) from 3 initial objects (zero value, Reset(default), after an error), " +
+		Rule: "engine S: all histories of <=5 (thorough <=6, <=7 from the zero value) calls over a 29-letter alphabet of call classes (Bytes, CSel, NSel, LOD, SetCSel, SetNSel, SetCReg/SetNReg {ok, ok-incr, ADJ=7, incr with ADJ=1}, SetLOD, StartPath {ok, ADJ=7, ADJ=71}, SetCReg ADJ=130, SetNReg ADJ=64, L, A, H, Y, Z, Reset {default, custom}) from 3 initial objects (zero value, Reset(default), after an error), " +
 			"each executed on a real Encoder in lock step with the 3-state specification automaton; then breadth-first search to depth 12 over canonical private states (reflective dump minus write-only buffers). " +
 			"In every state: Bytes errs iff the automaton is in error, the error value is the first one and sticky, Bytes twice equal, closed error-free histories decode to exactly the calls since the last Reset, zero-value and Reset(default) objects agree on bytes, errors and read-backs. " +
 			"states = distinct canonical Encoder states seen, transitions = calls executed in the BFS, evaluations = histories judged; non-trivial = history reaches the error state or contains a closed path",
@@ -216,6 +221,7 @@ type c10Obs struct {
 	reads    []uint32
 	state    int
 	since    []rec.Call // mutating calls since the last Reset (including it)
+	hires    []bool     // per call of since: the resolution its path was started with
 	implicit bool       // no explicit Reset since construction: default metadata implied
 }
 
@@ -224,6 +230,7 @@ func c10Exec(init int, letters []int) c10Obs {
 	e, state := c10NewEncoder(init)
 	var o c10Obs
 	o.implicit = true
+	flag, latched := false, false
 	if state == aError {
 		_, o.firstErr = e.Bytes()
 	}
@@ -239,14 +246,24 @@ func c10Exec(init int, letters []int) c10Obs {
 		case 'l':
 			a, b := e.LOD()
 			o.reads = append(o.reads, f32b(a), f32b(b))
+		case 'H', 'h':
+			// the exported flag; it takes effect at the next StartPath and Reset clears it
+			e.HighResolutionCoordinates = l.read == 'H'
+			flag = l.read == 'H'
 		default:
 			l.call.Apply(e)
 			if l.class == kReset {
 				o.since = o.since[:0]
+				o.hires = o.hires[:0]
 				o.implicit = false
 				o.firstErr = nil
+				flag = false
+			}
+			if l.call.M == rec.MStartPath {
+				latched = flag
 			}
 			o.since = append(o.since, *l.call)
+			o.hires = append(o.hires, latched)
 		}
 		ns := c10Step(state, l.class)
 		if ns == aError && state != aError {
@@ -318,12 +335,26 @@ func c10Check(w *mc.W, init int, letters []int) {
 			w.Fail("accepted-history-undecodable", fmt.Sprintf("history [%s] from %s: Decode of %x fails: %v", c10Names(letters), c10Inits[init], o.bytes, err), cs())
 			return
 		}
-		want := o.since
+		want, hires := o.since, o.hires
 		if o.implicit || init == 2 && len(want) == 0 {
 			want = append([]rec.Call{{M: rec.MReset, VB: ivg.DefaultViewBox, Pal: &ivg.DefaultPalette}}, want...)
+			hires = append([]bool{false}, hires...)
 		}
-		if i := firstDiff(rd.Calls, want); i >= 0 {
-			w.Fail("decodes-differently:"+methodAt(want, i), fmt.Sprintf("history [%s] from %s: stream %x decodes call %d as %s, history has %s", c10Names(letters), c10Inits[init], o.bytes, i, callAt(rd.Calls, i), callAt(want, i)), cs())
+		// every argument of the alphabet is exactly representable at either resolution, except
+		// the AbsHLineTo coordinate, which must come back as C01 states for the resolution the
+		// path was started with
+		i, why := -1, ""
+		for k := 0; k < len(want) && k < len(rd.Calls); k++ {
+			if why = cmpCall(&want[k], &rd.Calls[k], hires[k]); why != "" {
+				i = k
+				break
+			}
+		}
+		if i < 0 && len(want) != len(rd.Calls) {
+			i, why = min(len(want), len(rd.Calls)), "number of calls"
+		}
+		if i >= 0 {
+			w.Fail("decodes-differently:"+methodAt(want, i), fmt.Sprintf("history [%s] from %s: stream %x decodes call %d as %s, history has %s (%s; path started at high resolution: %v)", c10Names(letters), c10Inits[init], o.bytes, i, callAt(rd.Calls, i), callAt(want, i), why, i < len(hires) && hires[i]), cs())
 			return
 		}
 		w.Count("decoded_histories", 1)
@@ -361,6 +392,8 @@ func c10Key(init int, letters []int) (uint64, int) {
 			e.NSel()
 		case 'l':
 			e.LOD()
+		case 'H', 'h':
+			e.HighResolutionCoordinates = l.read == 'H'
 		default:
 			l.call.Apply(e)
 		}
